@@ -312,20 +312,55 @@ func (i *interpreter) mapKey(k value) value {
 	return k
 }
 
-// mapKeyIn resolves a symbolic string key against the (concrete) keys of m by
-// forking on equality with each of them; a key equal to none is replaced by a
-// fresh placeholder that is not in the map.
+// mapKeyIn resolves a string key that is, or may be equal to, a symbolic-byte
+// string: the key is compared (a solver-decided fork each) with every key of m
+// of the same length that could be equal to it; a symbolic key equal to none
+// of them is stored under its surrogate (every symbolic byte replaced by its
+// per-path placeholder byte), so that the same symbolic string finds its entry
+// again and range can map the key back (see unsurrogate).
 func (i *interpreter) mapKeyIn(m value, k value) value {
-	ss, ok := k.(symstr)
-	if !ok {
+	mm, isMap := m.(map[value]value)
+	var ss symstr
+	switch x := k.(type) {
+	case symstr:
+		if s, ok := x.concrete(); ok {
+			k = s
+		} else {
+			ss = x
+		}
+	case string:
+	default:
 		return i.mapKey(k)
 	}
-	if s, ok := ss.concrete(); ok {
-		return s
+	if !isMap {
+		if ss.b != nil {
+			panic(engineError{"symbolic string key into a non-builtin map"})
+		}
+		return k
 	}
-	mm, ok := m.(map[value]value)
-	if !ok {
-		panic(engineError{"symbolic string key into a non-builtin map"})
+	if ss.b == nil {
+		// concrete key: only keys that carry placeholders can be "equal in value"
+		ks := k.(string)
+		if len(i.world.placeBack) == 0 {
+			return k
+		}
+		var cands []string
+		for ck := range mm {
+			if s, ok := ck.(string); ok && len(s) == len(ks) && s != ks && i.hasPlaceholder(s) {
+				cands = append(cands, s)
+			}
+		}
+		sort.Strings(cands)
+		for _, ck := range cands {
+			if i.truth("mapkey", i.symstrBinop(token.EQL, i.unsurrogate(ck), ks)) {
+				return ck
+			}
+		}
+		return k
+	}
+	own := i.surrogateAll(ss)
+	if _, ok := mm[own]; ok {
+		return own
 	}
 	var keys []string
 	for ck := range mm {
@@ -335,12 +370,38 @@ func (i *interpreter) mapKeyIn(m value, k value) value {
 	}
 	sort.Strings(keys)
 	for _, ck := range keys {
-		if i.truth("mapkey", i.symstrBinop(token.EQL, ss, ck)) {
+		if i.truth("mapkey", i.symstrBinop(token.EQL, ss, i.unsurrogate(ck))) {
 			return ck
 		}
 	}
-	i.world.objID++
-	return fmt.Sprintf("\x00symkey-%d", i.world.objID)
+	return own
+}
+
+func (i *interpreter) hasPlaceholder(s string) bool {
+	for k := 0; k < len(s); k++ {
+		if s[k] >= 0x80 {
+			if _, ok := i.world.placeBack[s[k]]; ok {
+				return true
+			}
+		}
+	}
+	return false
+}
+
+// surrogateAll replaces every symbolic byte by its placeholder (no decisions).
+func (i *interpreter) surrogateAll(ss symstr) string {
+	out := make([]byte, len(ss.b))
+	for k, b := range ss.b {
+		switch bv := b.(type) {
+		case uint8:
+			out[k] = bv
+		case symv:
+			out[k] = i.world.placeholder(bv.t, bv)
+		default:
+			panic(engineError{fmt.Sprintf("surrogateAll: %T", b)})
+		}
+	}
+	return string(out)
 }
 
 func (i *interpreter) binopSym(op token.Token, t types.Type, x, y value) (value, bool) {
@@ -516,12 +577,19 @@ func kindWidthSafe(k types.BasicKind) (int, bool) {
 	return kindWidth(k)
 }
 
-func newSortedMapIter(m map[value]value) iter {
+func newSortedMapIter(i *interpreter, m map[value]value) iter {
 	it := &sliceIter{}
 	for k, v := range m {
 		it.items = append(it.items, tuple{true, k, v})
 	}
 	sort.SliceStable(it.items, func(a, b int) bool { return keyLess(it.items[a][1], it.items[b][1]) })
+	if i != nil && len(i.world.placeBack) > 0 {
+		for _, t := range it.items {
+			if s, ok := t[1].(string); ok {
+				t[1] = i.unsurrogate(s)
+			}
+		}
+	}
 	for _, t := range it.items {
 		switch t[1].(type) {
 		case *value:
